@@ -193,7 +193,32 @@ def check_case(case):
             if why:
                 vio.append((key("roundtrip"), "%s %s: %s" % (
                     case["vdt"], case["sizes"], why)))
+            # another dataset (same shapes, other values) saved under the
+            # same name afterwards: the dataset loaded before is a value and
+            # keeps its contents, a new load gives the new one
+            ds2 = orig.copy(deep=True)
+            for v_ in ds2.data_vars:
+                if ds2[v_].dtype.kind in "fc":
+                    ds2[v_] = ds2[v_] + 1.0
+                elif ds2[v_].dtype.kind in "iu":
+                    ds2[v_] = ds2[v_] + 1
+            orig2 = ds2.copy(deep=True)
+            xyz.save_ds(ds2, name, engine=eng)
+            why = same(back, orig, eng)
+            if why:
+                vio.append((key("loaded-changed"), "a dataset loaded earlier "
+                            "changed when another one was saved under the "
+                            "same name: %s" % why))
+            back2 = xyz.load_ds(name, engine=eng)
+            why = same(back2, orig2, eng)
+            if why:
+                vio.append((key("second-roundtrip"), "second save under the "
+                            "same name: %s" % why))
+            if listing() != [want_file]:
+                vio.append((key("file-name"), "saving twice left %r"
+                            % listing()))
             if chunks is not None and eng != "joblib":
+                xyz.save_ds(orig.copy(deep=True), name, engine=eng)
                 lazy = xyz.load_ds(name, engine=eng, chunks=chunks)
                 why = same(lazy.load(), orig, eng)
                 lazy.close()
